@@ -34,6 +34,15 @@ def _with_header_lines(filename):
                 lines.add(node.lineno)
                 for item in node.items:
                     lines.add(item.context_expr.lineno)
+            elif isinstance(node, ast.Try):
+                # clean-up code (finally bodies, except handlers) runs
+                # BECAUSE something failed; a further fault on the statement
+                # that precedes the close() call models no real execution
+                for part in list(node.finalbody) + [
+                        st for h in node.handlers for st in h.body]:
+                    for sub in ast.walk(part):
+                        if hasattr(sub, 'lineno'):
+                            lines.add(sub.lineno)
     except Exception:
         pass
     _with_lines[filename] = lines
